@@ -312,6 +312,8 @@ func checkC08(r *core.Run) {
 			c08Alias(r, p)
 			c08SpecialCases(r, p, "R-C08-alias")
 			c08InfinityDefined(r, p, "R-C08-alias")
+			c08WordsNotShared(r, p, "R-C08-words")
+			localsDefinedBeforeRead(r, p, "R-C08-alias", "lib/secp256k1", c03DefinedExceptions)
 		}
 		c08Mag(r, p, v.name)
 		c08Words(r, p, v.name)
@@ -853,4 +855,57 @@ func c08MayAliasAtCalls(p *core.Program, fn *ssa.Function, i, j int) bool {
 		}
 	}
 	return sites == 0
+}
+
+// c08WordsNotShared: big.Int.SetBits makes the number use the given word slice as its storage.  Giving one
+// number the words of another (x.SetBits(y.Bits())) makes the two share storage: a later in-place change of
+// one (masking, shifting) changes the other.  In lib/secp256k1 every SetBits argument is a fresh slice or
+// comes from Bits() of the very number that receives it.
+func c08WordsNotShared(r *core.Run, p *core.Program, rule string) {
+	n := 0
+	for _, fn := range p.ModuleFuncs() {
+		if fn.Pkg == nil || !strings.HasSuffix(fn.Pkg.Pkg.Path(), "lib/secp256k1") {
+			continue
+		}
+		for _, c := range an.CallsTo(fn, false, "(*math/big.Int).SetBits") {
+			n++
+			args := c.Common().Args
+			recv := an.Anon(an.Expr(args[0]))
+			bad := ""
+			seen := map[ssa.Value]bool{}
+			var origin func(v ssa.Value, d int)
+			origin = func(v ssa.Value, d int) {
+				if seen[v] || d > 10 || bad != "" {
+					return
+				}
+				seen[v] = true
+				switch x := v.(type) {
+				case *ssa.Slice:
+					origin(x.X, d+1)
+				case *ssa.Phi:
+					for _, e := range x.Edges {
+						origin(e, d+1)
+					}
+				case *ssa.MakeSlice:
+				case *ssa.Const:
+				case *ssa.Call:
+					switch an.CallName(x) {
+					case "(*math/big.Int).Bits":
+						if from := an.Anon(an.Expr(x.Call.Args[0])); from != recv {
+							bad = "the words of " + from + " become the storage of " + recv
+						}
+					case "builtin.append":
+						origin(x.Call.Args[0], d+1)
+					default:
+						bad = "the word slice comes from " + an.CallName(x)
+					}
+				default:
+					bad = "the origin of the word slice is not recognised (" + an.Anon(an.Expr(v)) + ")"
+				}
+			}
+			origin(args[1], 0)
+			r.Check(bad == "", rule, "words-not-shared/"+core.FuncName(fn), p.Pos(c.Pos()), "SetBits gets the number's own words or a fresh slice", "two numbers share their word storage: "+bad+" - a later in-place change of one changes the other")
+		}
+	}
+	r.Check(n >= 1, rule, "words-not-shared/sites", "-", fmt.Sprintf("%d SetBits calls", n), "no SetBits call found")
 }
